@@ -1,10 +1,14 @@
 #!/bin/bash
-# soak.sh <seed...>: run every registered quick check with the given seeds, print one line per run
+# soak.sh <seed...>: run every registered check with the given seeds, print one line per run
+# env: SOAK_TIER=quick|thorough (default quick), SOAK_WORKERS=n, SOAK_BUDGET=s (overrides the tier's budget)
 cd /verif
 props=$(python3 -c "import json;print(' '.join(c['property_id'] for c in json.load(open('MANIFEST.json'))['checks']))")
 for seed in "$@"; do
   for p in $props; do
-    out=$(VERIF_SEED=$seed bin/vcheck $p --tier quick 2>&1); rc=$?
+    args="--tier ${SOAK_TIER:-quick}"
+    [ -n "$SOAK_WORKERS" ] && args="$args --workers $SOAK_WORKERS"
+    [ -n "$SOAK_BUDGET" ] && args="$args --budget $SOAK_BUDGET"
+    out=$(VERIF_SEED=$seed VERIF_OUT_DIR=${SOAK_OUT:-/verif} bin/vcheck $p $args 2>&1); rc=$?
     echo "seed=$seed $p rc=$rc $(echo "$out" | head -1 | cut -c1-120)"
     if [ $rc -ne 0 ]; then echo "$out" | grep -E "violation tag|HARNESS|VIOLATION" | cut -c1-400 | head -6; fi
   done
